@@ -282,6 +282,7 @@ func checkC01(c *Ctx, r *Report) {
 	ruleHelperShape(c, r, "C01.e", helperShape{Fn: "gast.IsFuncDeclReceiverForStruct", AllowedCalls: []string{"builtin.len"}, MustFields: []string{"Recv", "Name"},
 		Why: "a method belongs to a controller iff its receiver type (T or *T) is named exactly like the struct"})
 
+	ruleEarlyExitInventory(c, r, "C01.a", 10, "core/visitors", "core/metadata")
 	// every element filter in these packages is a reviewed one
 	ruleSkipInventory(c, r, "C01.a", loadSkipTable(c.VerifDir), 8, "generator/swagen", "core/visitors", "core/metadata")
 }
